@@ -16,10 +16,13 @@ def isCmp : Op → Bool
   | .gt | .ge | .eq | .lt | .le | .inn => true
   | _ => false
 
-/-- a partition filter: `g_i <cmp> c`, `g_i IN (c, …)`, `g_i BETWEEN a AND b` on a group column -/
+/-- a partition filter: `g_i <cmp> c`, `g_i IN (c, …)`, `g_i BETWEEN a AND b` on a group column, or
+`g_i IN (SELECT … FROM shops [WHERE w])` with any sub-query WHERE `w` whatsoever (it may spell the outer time
+condition, use OR, functions, further sub-queries …) -/
 def isPF (nG : Nat) : W α → Bool
   | .bin op (.ident (.grp i)) (.const _) => decide (i < nG) && isCmp op
   | .bin .inn (.ident (.grp i)) (.tuple _) => decide (i < nG)
+  | .bin .inn (.ident (.grp i)) (.sub _ _) => decide (i < nG)
   | .btw (.ident (.grp i)) (.const _) (.const _) => decide (i < nG)
   | _ => false
 
@@ -215,6 +218,7 @@ def opsOk : W α → Bool
 def colsOk (nG : Nat) : W α → Bool
   | .ident c => allowedCol nG c
   | .opaque f => !f
+  | .cont f _ _ _ => !f
   | .bin _ l r => colsOk nG l && colsOk nG r
   | .btw x a b => colsOk nG x && colsOk nG a && colsOk nG b
   | .un x => colsOk nG x
@@ -224,6 +228,7 @@ def colsOk (nG : Nat) : W α → Bool
 non-Operation node, third BETWEEN operand not an Operation -/
 def visible : W α → Bool
   | .opaque f => !f
+  | .cont f _ _ _ => !f
   | .bin _ l r => visible l && visible r
   | .btw x a b => visible x && visible a && visible b && !b.isOperation
   | .un x => visible x
@@ -240,5 +245,53 @@ def andOk : W α → Bool
 def andOperandsOps : W α → Bool
   | .bin .and l r => l.isOperation && r.isOperation && andOperandsOps l && andOperandsOps r
   | _ => true
+
+/-! ## sub-queries and other closed nodes: what `replace_time_filter` may touch -/
+
+/-- the closed nodes of a tree -- every sub-select and every Tuple / CAST / CASE / argument list, with everything written
+inside it -- the outermost ones, in the order written -/
+def closedNodes : W α → List (W α)
+  | .sub k w => [.sub k w]
+  | .cont f k x rest => [.cont f k x rest]
+  | .bin _ l r => closedNodes l ++ closedNodes r
+  | .btw x a b => closedNodes x ++ closedNodes a ++ closedNodes b
+  | .un x => closedNodes x
+  | _ => []
+
+/-- the conjuncts of a WHERE: the leaves of its AND-nesting, in the order written -/
+def conjuncts : W α → List (W α)
+  | .bin .and l r => conjuncts l ++ conjuncts r
+  | w => [w]
+
+/-- the same AND-nesting with `f` applied to every conjunct -/
+def mapConj (f : W α → W α) : W α → W α
+  | .bin .and l r => .bin .and (mapConj f l) (mapConj f r)
+  | w => f w
+
+/-- a conjunct none of whose operands is itself an Operation: a comparison / IN between columns, constants, value
+lists, sub-queries, CAST / CASE; or BETWEEN; or anything that is not a BinaryOperation -/
+def flatCond : W α → Bool
+  | .bin _ l r => !l.isOperation && !r.isOperation
+  | _ => true
+
+/-- an AND-nesting of such conjuncts (what `validate_ts_where_condition` accepts, minus conditions used as operands
+of `=` / `IN`) -/
+def flatTree : W α → Bool
+  | .bin .and l r => flatTree l && flatTree r
+  | w => flatCond w
+
+/-- `replace_time_filter` written with the shared `query_traversal` instead of its own walk: every node is visited, one that
+equals the time filter is replaced, otherwise the walk goes on into ALL its children -- the operands of BETWEEN, the WHERE of
+a sub-select, the items of a value list, CAST / CASE operands. NOT what the library does (`replaceTF`):
+`C15_witness_deep_replace`, `C15_witness_deep_rows`. -/
+def replaceDeep (tf new : W α) : W α → W α
+  | .bin op l r => if W.bin op l r = tf then new else .bin op (replaceDeep tf new l) (replaceDeep tf new r)
+  | .btw x a b =>
+    if W.btw x a b = tf then new else .btw (replaceDeep tf new x) (replaceDeep tf new a) (replaceDeep tf new b)
+  | .un x => if W.un x = tf then new else .un (replaceDeep tf new x)
+  | .sub k w => if W.sub k w = tf then new else .sub k (replaceDeep tf new w)
+  | .cont f k x rest =>
+    if W.cont f k x rest = tf then new else .cont f k (replaceDeep tf new x) (replaceDeep tf new rest)
+  | w => if w = tf then new else w
 
 end MindsVerif.TS
